@@ -191,7 +191,7 @@ int main(int argc, char** argv) {
       if (vf::elapsed() > c.deadline) { c.capped = true; break; }
       c.prog->case_idx = idx; ++c.cases_run; vf::note("scenario " + name);
       g_nmembers = s.n; for (int k = 0; k < s.n; ++k) g_members[k] = s.m[k];
-      xs::Options o; o.bound = vf::thorough() ? s.bound_thorough : s.bound_quick; o.shard = c.only >= 0 ? 0 : c.shard; o.nshards = c.only >= 0 ? 1 : c.nshards; o.deadline_s = c.deadline - vf::elapsed(); o.keep_going = [] { vf::heartbeat(); return true; };
+      xs::Options o; o.bound = (vf::thorough() ? s.bound_thorough : s.bound_quick) + (vf::deep() ? 1 : 0); o.shard = c.only >= 0 ? 0 : c.shard; o.nshards = c.only >= 0 ? 1 : c.nshards; o.deadline_s = c.deadline - vf::elapsed(); o.keep_going = [] { vf::heartbeat(); return true; };
       xs::Stats st; std::map<std::string, xs::Finding> f;
       xs::explore(name.c_str(), body_group, o, st, f);
       if (!st.complete) c.capped = true;
